@@ -207,10 +207,16 @@ class Extractor:
         s, e = rustscan.locate_item(file, text, kind, name)
         item = strip_comments(text[s:e])
         # R1: make the item and its fields pub
-        item = re.sub(r'^\s*(pub(\([^)]*\))?\s+)?', 'pub ', item, count=1)
+        if kind != 'impl':
+            item = re.sub(r'^\s*(pub(\([^)]*\))?\s+)?', 'pub ', item, count=1)
         if kind == 'struct':
             item = re.sub(r'(?m)^(\s+)(?!pub\b)(\w+\s*:)', r'\1pub \2', item)
             item = re.sub(r'pub\(crate\)\s+', 'pub ', item)
+            mt = re.match(r'(pub\s+struct\s+\w+(?:<[^>]*>)?\s*)\((.*)\)(\s*;)\s*$', item, re.S)
+            if mt:
+                fields = rewrites._split_top_commas(mt.group(2))
+                fields = [f if (not f.strip() or f.strip().startswith('pub')) else ' pub ' + f.strip() for f in fields]
+                item = mt.group(1) + '(' + ','.join(fields).strip() + ')' + mt.group(3)
         rules = self.rules_for(opts)
         item, fired = rewrites.apply(item, rules)
         line = text.count('\n', 0, s) + 1
@@ -310,6 +316,20 @@ class Extractor:
         body, fired = rewrites.apply(body, rules)
         for k, v in sig_fired.items():
             fired[k] = fired.get(k, 0) + v
+        if re.search(r'\(\s*mut\s+self\b', sig):
+            # R12: a by-value `mut self` parameter is not supported by Verus; it is exactly
+            # `self` plus `let mut vq_self = self;` with the body using vq_self.
+            sig = re.sub(r'\(\s*mut\s+self\b', '(self', sig, count=1)
+            mb = rustscan.mask(body)
+            out_b, last_i = [], 0
+            for mm in re.finditer(r'\bself\b', mb):
+                out_b.append(body[last_i:mm.start()])
+                out_b.append('vq_self')
+                last_i = mm.end()
+            out_b.append(body[last_i:])
+            body = ''.join(out_b)
+            body = body[0] + ' let mut vq_self = self; ' + body[1:]
+            fired['R12'] = 1
         mbody = rustscan.mask(body)
         loops = rustscan.loop_positions(mbody)
         if 'loops' in opts and int(opts['loops']) != len(loops):
